@@ -338,7 +338,7 @@ class RustGen:
             return "%s.bytes_()?" % v
         if k == "raw":
             if t[2] == "sha256":
-                return "libtw2_common::digest::Sha256::from_slice(%s.bytes_()?)?" % v
+                return "libtw2_common::digest::Sha256::from_slice(%s.bytes_()?).ok()?" % v
             return "uuid::Uuid::from_slice(%s.bytes_()?).ok()?" % v
         if k == "be16":
             return "u16::try_from(%s.int_()?).ok()?" % v
